@@ -106,6 +106,45 @@ CLAIMED = {
         note=COMMON_NOTE + "Coordinates are abstracted to content tokens; the coordinate-propagation clause of apply_ufunc is assumed.",
         technique="contract-based deductive verification: symbolic execution of the real functions over a coordinate-token model",
     ),
+    "C10": dict(
+        category="proof",
+        text=("Deductive proof of the get_metric contract on the real code (get_metric, iterate_axis_combinations with demonic "
+              "frozenset order, interp_like -> interp re-executed symbolically): for every enumerated registry over 1-3 axes, array "
+              "position and request order, the result is an admissible choice per the statement (registered for exactly the axes "
+              "at the array's position, else one of them interpolated with extend + warning; otherwise a product over a fully "
+              "registered partition with largest first block, factors at position or interpolated), KeyError iff none, result "
+              "broadcasts against the array; metric values/sizes symbolic and non-uniform. Plus integrate = sum(data*metric) in "
+              "any axis order, average = sum(data*w)/sum(w), derivative = diff/metric at the result position, metric_weighted "
+              "op = op(data*m)/m' (single and per-axis mapping). average(constant)=constant is a BOUNDED stand-in (n<=3)."),
+        design_ref="DESIGN.md 7/C10",
+        note=COMMON_NOTE + "Products/quotients of two non-constant values are uninterpreted (commutative fmul, fdiv). Registries "
+             "are enumerated over a pool (quick: all 1-2-axis registries + 24 sampled 3-axis ones; thorough: all).",
+        technique="contract-based deductive verification: symbolic execution of the real functions + z3 VCs (admissible-choice disjunction)",
+    ),
+    "C16": dict(
+        category="proof",
+        text=("Data-structure contract of the real Grid.set_metrics / constructor metrics= loop against the abstract view "
+              "(axes set, dims set) -> variable: for EVERY well-formed pre-state over the pool and every call (1-3 variables at "
+              "pairwise different positions, overwrite T/F, key as tuple or str) the post view equals the one-at-a-time fold from "
+              "the statement, refusal (ValueError) iff an occupied slot without overwrite, well-formedness preserved, other keys "
+              "and the argument list untouched; exhaustive over shapes (values play no role), history property by induction."),
+        design_ref="DESIGN.md 7/C16",
+        note="Finite, exhaustive enumeration of abstract pre-states and calls over a fixed pool (3 positions on X, 2 two-dimensional "
+             "variables); obligations are decided by executing the real function on each shape. Trusted: dataset model, CPython.",
+        technique="contract-based verification of a data-structure invariant + one-step contract (exhaustive over abstract states), induction over histories",
+    ),
+    "C17": dict(
+        category="proof",
+        text=("Deductive proof that the real constructor (Grid.__init__ + _assign_face_connections/check_neighbor) returns "
+              "normally iff reciprocal(table): ghost tables with concrete shape and SYMBOLIC contents (every link's face index an "
+              "arbitrary integer, reverse flag an arbitrary boolean, axis word enumerated incl. an unknown axis): all 256 shapes "
+              "over 2 faces x 1 axis (superset of the 625 tables of the quantifier), all one-slot and (quick: sampled, thorough: "
+              "all) two-slot edits of 5 consistent tables over 2 faces x 2 axes and 3 faces; two face dimensions / absent face "
+              "dimension refused; accepted tables reach the axes. Random consistent tables up to 6 faces are a BOUNDED stand-in."),
+        design_ref="DESIGN.md 7/C17",
+        note=COMMON_NOTE + "Symbolic face indices are resolved in the ghost table by forking over its keys.",
+        technique="contract-based deductive verification: symbolic execution of the real function + z3 VCs (accept <=> reciprocal)",
+    ),
 }
 
 NOT_YET = {}
